@@ -227,10 +227,29 @@ var templates = []string{
 	`goto done emit("skipped") ::done:: emit("after-goto$K")`,
 }
 
+// libObjects: values the library hands out whose metatable a program can
+// reach with getmetatable (a metatable built once per process instead of once
+// per runtime would be mutable state shared by all runtimes).
+const libObjects = `local objs = {{"string", ""}, {"stdout", io.stdout}, {"stderr", io.stderr}, {"context", runtime.context()}, {"used", runtime.context().used}, {"kill", runtime.context().kill}, {"ended-context", (runtime.callcontext({}, function() end))}, {"ended-used", (runtime.callcontext({kill = {cpu = 1000}}, function() end)).used}} `
+
+func init() {
+	// each statement first observes every object's metatable, then leaves its mark on it
+	observe := `for _, p in ipairs(objs) do local name, o = p[1], p[2] local mt = getmetatable(o) emit("libobj", name, type(o), type(mt), type(mt) == "table" and tostring(rawget(mt, "mark")), type(mt) == "table" and type(rawget(mt, "__index")), (pcall(tostring, o)), (tostring(o):gsub("0x%x+", "PTR"))) `
+	for _, mutate := range []string{
+		`if type(mt) == "table" then rawset(mt, "mark", $K) end end`,
+		`if type(mt) == "table" then rawset(mt, "__tostring", function() return name .. "-hijacked-$K" end) end end`,
+		`if type(mt) == "table" then rawset(mt, "__index", function(_, k) return "idx$K-" .. tostring(k) end) end end emit(pcall(function() return io.stdout.nosuchfield end))`,
+		`if type(mt) == "table" then rawset(mt, "__name", "named$K") end end`,
+		`if type(mt) == "table" and name ~= "string" then rawset(mt, "__metatable", "locked$K") end end`,
+	} {
+		templates = append(templates, libObjects+observe+mutate)
+	}
+}
+
 func TestC20(t *testing.T) {
 	rec := ev.New("C20")
 	defer Finish(t, rec)
-	rec.Rule("sets of 2-4 programs, each a rapid-drawn sequence of 4-14 statements over globals from 54 templates that touch state a runtime could wrongly share (globals, library tables, the string/number/nil metatables, the random generator after an explicit seed, collectgarbage options, package.loaded/preload, locale, stdout buffering, quotas, errors, coroutines, warn), each statement compiled and run as its own chunk. Oracle: every runtime's observation list (results, errors, host events) when (a) interleaved with the others at statement granularity in one goroutine following a drawn schedule and (b) created and run concurrently on its own goroutine (GOMAXPROCS varied) equals its observation list when run alone; the binary is built with -race and any race report is a violation. Non-trivial: >= 2 runtimes each execute >= 1 statement from the shared-state suspect templates and, for (a), their statements really alternate; distinct by (programs, schedule, mode).")
+	rec.Rule("sets of 2-4 programs, each a rapid-drawn sequence of 4-14 statements over globals from 59 templates that touch state a runtime could wrongly share (globals, library tables, the string/number/nil metatables, the metatables of values the library hands out - strings, files, context and resource objects - each observed and then marked, the random generator after an explicit seed, collectgarbage options, package.loaded/preload, locale, stdout buffering, quotas, errors, coroutines, warn), each statement compiled and run as its own chunk. Oracle: every runtime's observation list (results, errors, host events) when (a) interleaved with the others at statement granularity in one goroutine following a drawn schedule and (b) created and run concurrently on its own goroutine (GOMAXPROCS varied) equals its observation list when run alone; the binary is built with -race and any race report is a violation. Non-trivial: >= 2 runtimes each execute >= 1 statement from the shared-state suspect templates and, for (a), their statements really alternate; distinct by (programs, schedule, mode).")
 	rec.Assume("math.random values are only observed after an explicit math.randomseed in the same statement")
 	rec.Assume("races are found when both conflicting accesses execute; interleavings inside Go's scheduler are sampled (GOMAXPROCS 2/4/16)")
 
